@@ -152,9 +152,30 @@ def run(ctx):
         g_ = dict(_gt10(pa_, canon))
         has_pool = g_.get("pool is None") is False
         cfgkey = (has_pool, g_.get("vectorised"), g_.get("chunksize") if g_.get("vectorised") else None)
-        ok, why = order_preserving(pa_.ret, has_pool) if pa_.ret is not None else (False, "no result")
-        if cfgkey in seen_cfg and seen_cfg[cfgkey][0] == ok:
-            continue
+        ret10 = pa_.ret
+        # a final conversion np.asarray(result, dtype=D) / result.astype(D): the values stay those of the function only if
+        # no dtype is imposed unless the caller asked for one (D is None, or the caller's own argument where it is not None) -
+        # a default taken from the configuration would round every result through that type (float32 live points!)
+        cast_ok, cast_why = True, ""
+        for _ in range(2):
+            d10 = None
+            if isinstance(ret10, ast.Call) and (call_name(ret10) or "").split(".")[-1] in ("asarray", "array", "asanyarray") and ret10.args and any(k_.arg == "dtype" for k_ in ret10.keywords) and not (isinstance(ret10.args[0], (ast.ListComp, ast.List)) or (isinstance(ret10.args[0], ast.Call) and (call_name(ret10.args[0]) or "").split(".")[-1] in ("map", "list"))):
+                d10 = next(k_.value for k_ in ret10.keywords if k_.arg == "dtype")
+                ret10 = ret10.args[0]
+            elif isinstance(ret10, ast.Call) and isinstance(ret10.func, ast.Attribute) and ret10.func.attr == "astype" and len(ret10.args) == 1:
+                d10 = ret10.args[0]
+                ret10 = ret10.func.value
+            if d10 is None:
+                break
+            is_none = isinstance(d10, ast.Constant) and d10.value is None
+            caller = isinstance(d10, ast.Name) and d10.id in bf.params()
+            if not (is_none or caller):
+                cast_ok, cast_why = False, f"results are cast to `{src(d10)[:50]}`"
+        ok, why = order_preserving(ret10, has_pool) if ret10 is not None else (False, "no result")
+        if ok and not cast_ok:
+            ok, why = False, cast_why
+        if cfgkey in seen_cfg and (seen_cfg[cfgkey][0] == ok or not seen_cfg[cfgkey][0]):
+            continue  # (a failing path of a configuration is not overwritten by a passing one)
         seen_cfg[cfgkey] = (ok, why, pa_.ret)
     for cfgkey, (ok, why, ret_) in sorted(seen_cfg.items(), key=lambda kv: str(kv[0])):
         ctx.ob("R-SIB", "C10.3", bf, f"configuration pool={cfgkey[0]}, vectorised={cfgkey[1]}, chunked={cfgkey[2]}: split / map / combine are order-preserving and cover the whole batch", ok, f"`{src(ret_)[:110] if ret_ is not None else None}`: {why}")
